@@ -290,6 +290,11 @@ func genValid(t *rapid.T, label string) string {
 		return wild.Program(t, wild.Opts{MaxDepth: 2, MaxStmts: 2}) + ";"
 	case 4:
 		return "\n\n" + wild.Program(t, wild.Opts{MaxDepth: 2, MaxStmts: 2})
+	case 5:
+		// leading empty statements / terminators in every combination
+		lead := rapid.SampledFrom([]string{";", ";;", "\n;", ";\n;", "# c\n;", ";\n\n", "; ;", "/* c */;"}).Draw(t, "lead")
+		n := rapid.IntRange(1, 2).Draw(t, "nst")
+		return lead + wild.Program(t, wild.Opts{MaxDepth: 2, MaxStmts: n})
 	default:
 		return wild.Program(t, wild.Opts{Loops: true, Go: true, HugeInts: true, MaxDepth: 3, MaxStmts: 3})
 	}
